@@ -100,10 +100,32 @@ func (p *prover) numberLoads() {
 			}
 		}
 	}
+	firstG := map[*ssa.Global]ssa.Value{}
+	firstC := map[*ssa.Function]ssa.Value{}
 	for _, b := range p.fn.DomPreorder() {
 		for _, in := range b.Instrs {
+			if c, ok := in.(*ssa.Call); ok && p.prog != nil {
+				// a parameterless function that only combines constants and lengths of never-reassigned
+				// package variables returns the same number on every call
+				if callee := c.Common().StaticCallee(); callee != nil && len(c.Common().Args) == 0 && p.prog.stableNullary(callee) {
+					if f, ok := firstC[callee]; ok {
+						p.vn[c] = f
+					} else {
+						firstC[callee] = c
+					}
+				}
+				continue
+			}
 			u, ok := in.(*ssa.UnOp)
 			if !ok || u.Op != token.MUL {
+				continue
+			}
+			if g, ok := u.X.(*ssa.Global); ok && p.prog != nil && p.prog.stableGlobal(g) {
+				if f, ok := firstG[g]; ok {
+					p.vn[u] = f
+				} else {
+					firstG[g] = u
+				}
 				continue
 			}
 			fa, ok := u.X.(*ssa.FieldAddr)
@@ -131,6 +153,77 @@ func (p *prover) numberLoads() {
 			}
 		}
 	}
+}
+
+// stableGlobal: a package variable of acra that no function other than a package initialiser ever stores to
+// (directly or through its address: the address is only ever loaded from).
+func (p *Program) stableGlobal(g *ssa.Global) bool {
+	if p.stableG == nil {
+		p.stableG = map[*ssa.Global]bool{}
+		unstable := map[*ssa.Global]bool{}
+		for _, fn := range p.srcFns {
+			isInit := fn.Name() == "init" && fn.Synthetic != ""
+			for _, b := range fn.Blocks {
+				for _, in := range b.Instrs {
+					for _, op := range in.Operands(nil) {
+						gl, ok := (*op).(*ssa.Global)
+						if !ok {
+							continue
+						}
+						if u, isU := in.(*ssa.UnOp); isU && u.Op == token.MUL && u.X == ssa.Value(gl) {
+							continue // plain load
+						}
+						if st, isSt := in.(*ssa.Store); isSt && st.Addr == ssa.Value(gl) && isInit {
+							continue
+						}
+						unstable[gl] = true // stored to outside init, or its address escapes
+					}
+				}
+			}
+		}
+		for _, pk := range p.SSA.AllPackages() {
+			for _, m := range pk.Members {
+				if gl, ok := m.(*ssa.Global); ok && isAcraPath(pk.Pkg.Path()) && !unstable[gl] {
+					p.stableG[gl] = true
+				}
+			}
+		}
+	}
+	return p.stableG[g]
+}
+
+// stableNullary: fn has no parameters and its single block only loads stable globals, takes lengths,
+// adds/subtracts/multiplies constants and returns.
+func (p *Program) stableNullary(fn *ssa.Function) bool {
+	if p.stableF == nil {
+		p.stableF = map[*ssa.Function]bool{}
+	}
+	if v, ok := p.stableF[fn]; ok {
+		return v
+	}
+	ok := len(fn.Params) == 0 && len(fn.FreeVars) == 0 && len(fn.Blocks) == 1 && isAcraPath(fnPkgPath(fn))
+	if ok {
+		for _, in := range fn.Blocks[0].Instrs {
+			switch x := in.(type) {
+			case *ssa.UnOp:
+				g, isG := x.X.(*ssa.Global)
+				if x.Op != token.MUL || !isG || !p.stableGlobal(g) {
+					ok = false
+				}
+			case *ssa.BinOp, *ssa.Return, *ssa.Convert, *ssa.DebugRef:
+			case *ssa.Call:
+				if _, isLen := isLenCall(x); !isLen {
+					if c := x.Common().StaticCallee(); c == nil || len(x.Common().Args) != 0 || c == fn || !p.stableNullary(c) {
+						ok = false
+					}
+				}
+			default:
+				ok = false
+			}
+		}
+	}
+	p.stableF[fn] = ok
+	return ok
 }
 
 func intConst(v ssa.Value) (int64, bool) {
@@ -1154,8 +1247,20 @@ func (p *prover) proveLenLower(a, b term, c int64, blk *ssa.BasicBlock, depth in
 			return p.prove(a, th, c+oh-lo, blk, depth+1)
 		}
 		if x.High == nil && !hasLo {
-			// len(x[lo:]) = len(x) - lo ; a <= len(x) - lo + c  <=  (a + lo) <= len(x) + c : only if a is const-ish; try a + lo form when lo has a known upper bound equal... skip
+			// len(x[lo:]) = len(x) - lo ; 0 <= len(x) - lo + c  <=>  lo <= len(x) + c
+			if a == zeroT {
+				if _, isArr := x.X.Type().Underlying().(*types.Pointer); !isArr {
+					tl, ol := p.norm(x.Low)
+					return p.prove(tl, term{canonLenOperand(x.X), true}, c-ol, blk, depth+1)
+				}
+			}
 			return false
+		}
+		if x.High != nil && !hasLo && a == zeroT {
+			// len(x[lo:hi]) = hi - lo ; 0 <= hi - lo + c  <=>  lo <= hi + c
+			tl, ol := p.norm(x.Low)
+			th, oh := p.norm(x.High)
+			return p.prove(tl, th, c+oh-ol, blk, depth+1)
 		}
 	case *ssa.MakeSlice:
 		tl, ol := p.norm(x.Len)
@@ -1205,6 +1310,41 @@ type boundSink struct {
 	Idx       ssa.Value // index
 	Lo, Hi    ssa.Value // slice bounds (nil = absent)
 	Len       ssa.Value // make length
+	Width     int64     // fixed: bytes the callee reads/writes at the start of Container
+}
+
+// fixedWidthAccess recognises encoding/binary's fixed-width byte order accessors.
+func fixedWidthAccess(c *ssa.Call) (int64, ssa.Value) {
+	co := calleeOfCommon(c.Common())
+	if co == nil || co.Pkg() == nil || co.Pkg().Path() != "encoding/binary" {
+		return 0, nil
+	}
+	recv := co.Type().(*types.Signature).Recv()
+	if recv == nil {
+		return 0, nil
+	}
+	var n int64
+	switch strings.TrimPrefix(co.Name(), "Put") {
+	case "Uint16":
+		n = 2
+	case "Uint32":
+		n = 4
+	case "Uint64":
+		n = 8
+	default:
+		return 0, nil
+	}
+	args := c.Common().Args
+	if c.Common().IsInvoke() {
+		if len(args) < 1 {
+			return 0, nil
+		}
+		return n, args[0]
+	}
+	if len(args) < 2 {
+		return 0, nil
+	}
+	return n, args[1]
 }
 
 func boundSinks(fn *ssa.Function) []boundSink {
@@ -1220,6 +1360,11 @@ func boundSinks(fn *ssa.Function) []boundSink {
 				out = append(out, boundSink{Instr: x, Kind: "slice", Container: x.X, Lo: x.Low, Hi: x.High})
 			case *ssa.MakeSlice:
 				out = append(out, boundSink{Instr: x, Kind: "make", Len: x.Len})
+			case *ssa.Call:
+				// binary.{Little,Big}Endian.UintN(b) / PutUintN(b, v) index b[N/8-1] unconditionally
+				if n, buf := fixedWidthAccess(x); n > 0 {
+					out = append(out, boundSink{Instr: x, Kind: "fixed", Container: buf, Width: n})
+				}
 			}
 		}
 	}
@@ -1461,6 +1606,25 @@ func (p *prover) CheckSinks(classP map[ssa.Value]bool) []boundVerdict {
 				v.Proven, v.Missing = false, "low <= len"
 			}
 			out = append(out, v)
+		case "fixed":
+			if !p.constBounds || !inputContainer(s.Container) {
+				continue
+			}
+			v := boundVerdict{Sink: s, Why: "K: fixed-width read of a buffer received from outside", Proven: true}
+			okW := false
+			if sl, isSl := s.Container.(*ssa.Slice); isSl && sl.High != nil {
+				// len(x[lo:hi]) == hi-lo once the slice expression itself succeeded (its own obligation)
+				okW = p.Prove(sl.Low, s.Width, sl.High, 0, blk)
+			} else if isSl && sl.High == nil {
+				// len(x[lo:]) == len(x)-lo
+				if _, isArr := sl.X.Type().Underlying().(*types.Pointer); !isArr {
+					okW = p.ProveLen(sl.Low, s.Width, sl.X, 0, blk)
+				}
+			}
+			if !okW && !p.ProveLen(nil, s.Width, s.Container, 0, blk) {
+				v.Proven, v.Missing = false, fmt.Sprintf("%d <= len", s.Width)
+			}
+			out = append(out, v)
 		case "make":
 			why := p.risky(s.Len, classP)
 			if why == "" {
@@ -1514,6 +1678,8 @@ func sinkText(p *Program, s boundSink) string {
 		return fmt.Sprintf("%s[%s]", name(s.Container), name(s.Idx))
 	case "slice":
 		return fmt.Sprintf("%s[%s:%s]", name(s.Container), name(s.Lo), name(s.Hi))
+	case "fixed":
+		return fmt.Sprintf("%d bytes of %s", s.Width, name(s.Container))
 	}
 	return fmt.Sprintf("make(len %s)", name(s.Len))
 }
